@@ -370,6 +370,12 @@ def exec_for(I, st, node):
             yield st1, ("raise", _exc("TypeError", "'%s' object is not iterable" % ("NoneType" if it is None else type(it).__name__)).exc)
             continue
         sym = symbolic_iter(I, st1, it)
+        from .values import IterE
+
+        if sym is None and isinstance(it, Ref) and isinstance(st1.get(it), IterE):
+            # `for x in <iterator>`: every step takes the next item away from the iterator; `break` leaves the rest in it
+            yield from unroll_once(I, st1, node, it, 0)
+            continue
         if sym is None:
             live = live_list_ref(I, st1, it)
             if live is not None:
@@ -378,6 +384,8 @@ def exec_for(I, st, node):
                 yield from unroll_live(I, st1, node, live, 0)
                 continue
             items, watch = iterate_watched(I, st1, it)
+            if sized_watch(st1, it):
+                watch = (watch or ()) + sized_watch(st1, it)
             if len(items) > 4000:
                 raise Unsupported("loop over %d items" % len(items))
             yield from unroll_for(I, st1, node, items, 0, watch=watch)
@@ -460,8 +468,21 @@ def _same_items(cur, snap):
     return True
 
 
+def sized_watch(st, it):
+    """record for `for k in <dict / set>`: CPython raises RuntimeError as soon as the container's size differs at the next
+    step (and walks an unspecified sequence if keys were swapped): any change of the key set while it is iterated is refused"""
+    if isinstance(it, Ref) and st.get(it).kind in ("dict", "set"):
+        return ((("sized", it.id), tuple(st.get(it).items)),)
+    return ()
+
+
 def lazy_check(st, rec):
     for rid, snap in rec or ():
+        if isinstance(rid, tuple) and rid[0] == "sized":
+            e = st.store.get(rid[1])
+            if e is None or not _same_items(list(e.items), snap):
+                raise Unsupported("a dict / set gets or loses keys while it (or a view of it) is being iterated / after a view of it was taken")
+            continue
         e = st.store.get(rid)
         if e is None or not _same_items(e.items, snap):
             raise Unsupported("a list is changed while an eagerly evaluated lazy iterator (generator / iter()) over it is still being consumed")
@@ -494,6 +515,49 @@ def unroll_live(I, st, node, ref, k):
                 continue
             yield from _live_rest(I, list(I.ex_block(node.body, st1)), node, ref, k)
         return
+
+
+def unroll_once(I, st, node, ref, k):
+    """`for x in <iterator>` (see values.IterE): items are taken from the front of the iterator one by one"""
+    while True:
+        e = st.get(ref)
+        if k > 4000:
+            raise Unsupported("loop over more than 4000 items")
+        if k > 0:
+            lazy_check(st, st.ghost.get(("lazy_src", ref.id)))
+        if not e.items:
+            e.done = True
+            if node.orelse:
+                yield from I.ex_block(node.orelse, st)
+            else:
+                yield st, None
+            return
+        x = e.items.pop(0)
+        outs = list(I.assign(node.target, x, st))
+        if len(outs) == 1 and not isinstance(outs[0][1], Exc):
+            body = list(I.ex_block(node.body, outs[0][0]))
+            if len(body) == 1 and (body[0][1] is None or body[0][1][0] == "continue"):
+                st = body[0][0]
+                k += 1
+                continue
+            yield from _once_rest(I, body, node, ref, k)
+            return
+        for st1, r in outs:
+            if isinstance(r, Exc):
+                yield st1, ("raise", r.exc)
+                continue
+            yield from _once_rest(I, list(I.ex_block(node.body, st1)), node, ref, k)
+        return
+
+
+def _once_rest(I, body, node, ref, k):
+    for st2, ctrl in body:
+        if ctrl is None or ctrl[0] == "continue":
+            yield from unroll_once(I, st2, node, ref, k + 1)
+        elif ctrl[0] == "break":
+            yield st2, None
+        else:
+            yield st2, ctrl
 
 
 def _live_rest(I, body, node, ref, k):
@@ -772,7 +836,10 @@ def call_generator(I, st, f, args, kwargs):
         yield st, Exc(err)
         return
     I.note_function(f)
-    acc = st.alloc(ListE([]))
+    before = st.fork()
+    from .values import IterE
+
+    acc = st.alloc(IterE([]))
     vars["__yields__"] = acc
     fr = Frame(vars, f, f.module, f.cls)
     st.frames.append(fr)
@@ -780,9 +847,21 @@ def call_generator(I, st, f, args, kwargs):
     for st1, ctrl in I.ex_block(f.node.body, st):
         I.pop_frame(st1)
         lazy_end(st1, old, acc)
+        # The body ran NOW, at the call; CPython runs it piecewise while the generator is consumed (nothing at all at the
+        # call).  The two agree only if the body has no effect besides the values it yields.
+        eff = I.state_effects(before, st1, fr.fid)
+        if eff is not None:
+            raise Unsupported("generator %s changes state (%s): its side effects would happen at creation instead of during iteration" % (f.qualname(), eff))
         if ctrl is None or ctrl[0] == "return":
             yield st1, acc
         elif ctrl[0] == "raise":
+            if I.is_subclass(ctrl[1].cls, BuiltinClass("StopIteration", StopIteration)):
+                # PEP 479: a StopIteration that escapes a generator body is turned into RuntimeError
+                yield st1, Exc(ExcVal(BuiltinClass("RuntimeError", RuntimeError), ("generator raised StopIteration",)))
+                continue
+            # an exception belongs to the step that reaches it, after the items yielded before it were delivered
+            if st1.get(acc).items:
+                raise Unsupported("generator %s raises after yielding items (eager evaluation would lose the items)" % f.qualname())
             yield st1, Exc(ctrl[1])
         else:
             raise EngineError("break/continue escaped generator")
